@@ -137,7 +137,18 @@ bool exec_gen(ExecCtx &c) {
       return true;
     }
     case OP_N_ASSIGN: {
-      // generators are not among the objects C10/C14 name: observed only
+      // copy assignment of a generator (including g = g through a reference):
+      // an assignment applied to an object - C14 demands the target unchanged
+      // if it throws and the source unchanged always
+      int slot = op.a % NGEN;
+      if (!P.gen[slot]) return true;
+      const Gen *src = ref_gen(c, op.b);
+      if (!src) return true;
+      if constexpr (std::is_copy_assignable_v<Gen>) {
+        out.target = SLOT_GEN0 + slot;
+        if (src == &*P.gen[slot]) probe(PR_SELF_ASSIGN);
+        libcall(out, [&] { *P.gen[slot] = *src; });
+      }
       return true;
     }
     case OP_N_DROP: {
